@@ -90,8 +90,17 @@ LineTexts(seed) ==
 LineSeq == SetToSeq(UNION {LineTexts(Seeds[s]) : s \in DOMAIN Seeds})
 SpliceBytes == <<0, 1, 9, 13, 27, 34, 35, 39, 47, 92, 127, 128, 195, 255>>
 
+\* statements whose operand is evaluated while the text is COMPILED (the path of include / import), in a trusted context:
+\* every way such an expression can fail or yield something that is no usable path
+PathExprs == {"str(1 / 0)", "\"a\" + str(1 / 0)", "substr(\"abc\", 1 / 0)", "str(tab(1, 1).at(5))", "chr(300)", "str()", "\"\"", "\"/nonexistent/x\"", "\"/tmp\"",
+              "str(raw(2, 65).at(9))", "FP()", "FN()", "str(int(\"x\"))", "\"a\".at(7)", "str(tup(1, \"a\")@2) + chr(0 - 1)", "b64enc(raw(3, 0))", "lower(str(null))", "NOSUCH()", "X"}
+PathPrelude == "function FP() return string is begin raise NOPATH; end; function FN() return string is begin return str(); end; "
+PathTexts == {PathPrelude \o kw \o " " \o e \o "; print 1;" : kw \in {"include", "import"}, e \in PathExprs}
+             \cup {kw \o " " \o e \o ";" : kw \in {"include", "import"}, e \in PathExprs}
+PathSeq == SetToSeq(PathTexts)
 VARIABLE p
 Init == p \in {[k |-> "V", c |-> c] : c \in 0..((Len(ExprSeq) - 1) \div Chunk)}
+              \cup {[k |-> "P", j |-> j] : j \in DOMAIN PathSeq}
               \cup {[k |-> "E", c |-> c] : c \in 0..((Len(EditSeq) - 1) \div Chunk)}
               \cup {[k |-> "L", c |-> c] : c \in 0..((Len(LineSeq) - 1) \div Chunk)}
               \cup {[k |-> "B", s |-> s, b |-> b] : s \in DOMAIN Seeds, b \in DOMAIN SpliceBytes}
@@ -113,6 +122,12 @@ Scenario(q) ==
          [prop |-> "C01", key |-> "L",
           steps |-> [j \in 1..(Hi(q.c, Len(LineSeq)) - Lo(q.c) + 1) |-> [op |-> "step", ctx |-> j, free |-> TRUE, text |-> LineSeq[Lo(q.c) + j - 1]]]
                     \o (IF q.c % 8 = 0 THEN [j \in 1..(Hi(q.c, Len(LineSeq)) - Lo(q.c) + 1) |-> [op |-> "cli", mode |-> "inter", free |-> TRUE, text |-> LineSeq[Lo(q.c) + j - 1] \o "\n", args |-> <<>>]] ELSE <<>>)]
+    [] q.k = "P" ->
+         [prop |-> "C01", key |-> "P",
+          steps |-> << [op |-> "new", ctx |-> 0, trusted |-> TRUE], [op |-> "exec", ctx |-> 0, free |-> TRUE, text |-> PathSeq[q.j]],
+                       [op |-> "new", ctx |-> 1, trusted |-> TRUE], [op |-> "step", ctx |-> 1, free |-> TRUE, text |-> PathSeq[q.j]],
+                       [op |-> "cli", mode |-> "file", free |-> TRUE, text |-> PathSeq[q.j], args |-> <<>>],
+                       [op |-> "cli", mode |-> "inter", free |-> TRUE, text |-> PathSeq[q.j] \o "\n", args |-> <<>>] >>]
     [] q.k = "B" ->
          LET t == Render(Seeds[q.s]) IN
          [prop |-> "C01", key |-> "B",
